@@ -319,3 +319,125 @@ def TASKS(tier):
                    bounds='IterationEnd over 3-4 rounds, each with or without a delta from the body', role='iteration_end',
                    opts={'covers': ['default_delta']}))
     return ts
+
+
+# ------------------------------------------------------------------------------------ Replay
+
+class StateHandleStub(PyObj):
+    """IterationStateHandle: records every state published to the loop body together with the lock generation"""
+    name = 'IterationStateHandle'
+
+    def __init__(self, lock_holder):
+        self.sets = []
+        self.lock_holder = lock_holder
+
+    def trait_call(self, ex, trait, method, args):
+        if method == 'set':
+            gen = self.lock_holder[0].get('generation').slot[0]
+            self.sets.append((args[1], gen))
+            return unit()
+        if trait == 'Clone':
+            return self
+        return NotImplemented
+
+
+class FeedbackRx(PyObj):
+    """the leader's feedback channel as seen by one Replay replica"""
+    name = 'NetworkReceiver'
+
+    def __init__(self, w, msgs):
+        self.w = w
+        self.msgs = list(msgs)
+
+    def trait_call(self, ex, trait, method, args):
+        if method == 'recv':
+            if not self.msgs:
+                raise Violation('Replay waits for a state update that the leader never sends (stuck)')
+            new_single = self.w.impls[(None, 'NetworkMessage')]['new_single'][0]
+            kind, st = self.msgs.pop(0)
+            irv = dict(self.w.src.enum_variants('IterationResult'))
+            item = Agg('tuple', None, [Enum('IterationResult', kind, irv[kind], []), st])
+            return ok(ex.call_function(new_single, [hlib.se('Item', item), hlib.coord(self.w, 4, 0, 0)]))
+        return NotImplemented
+
+
+def replay_harness(w, outer, max_len, max_rounds):
+    nxt = w.impls[('Operator', 'Replay')]['next'][0]
+    hlib.check_se_table(w)
+
+    def h(ex):
+        # input: `outer` iterations of the outer stream (nested loop), each replayed 1..max_rounds times
+        script = hlib.gen_script(ex, outer, max_len, 'ITW', ts_span=(1000, 5),
+                                 payload=lambda ex, k: Int('u64', k))
+        rounds, msgs = [], []
+        for o in range(outer):
+            r = 1 + ex.choose(max_rounds, 'rounds')
+            rounds.append(r)
+            for k in range(r - 1):
+                msgs.append(('Continue', ex.fresh_int('u64', 'state_%d_%d' % (o, k))))
+            msgs.append(('Finished', ex.fresh_int('u64', 'state_%d_final' % o)))
+        lock = hlib.mk_struct(w, 'IterationStateLock', generation=MutexModel(Int('usize', 0)), cond_var=Opaque('Condvar'))
+        lock_holder = [lock]
+        handle = StateHandleStub(lock_holder)
+        rx = FeedbackRx(w, msgs)
+        sh = hlib.mk_struct(w, 'IterationStateHandler', coord=hlib.coord(w, 2, 0, 0), new_state_receiver=some(rx),
+                            leader_block_id=Int('u64', 4), is_local_leader=True, num_local_replicas=Int('usize', 1),
+                            state_ref=handle, state_barrier=ArcModel(MutexModel(None)), state_lock=ArcModel(slot=lock_holder))
+        rp = hlib.mk_struct(w, 'Replay', coord=hlib.coord(w, 2, 0, 0), state=sh, prev=hlib.Upstream(script),
+                            content=VecModel([]), content_index=Int('usize', 0), input_finished=False)
+        holder = [rp]
+        out, gens = [], []
+        total = sum(rounds) * (max_len if isinstance(max_len, int) else max(max_len)) + 8 * outer + 8
+        while True:
+            el = ex.call_function(nxt, [Ref(holder, 0)])
+            out.append(el)
+            gens.append(lock_holder[0].get('generation').slot[0])
+            if el.variant == 'Terminate':
+                break
+            if len(out) > 4 * total:
+                raise Violation('Replay does not terminate', hlib._wit(ex))
+        sx = lambda: {'script': [repr(e) for e in script], 'rounds': rounds, 'output': [repr(e) for e in out]}
+        ins = hlib.split_iterations(script)
+        want = []
+        for o in range(outer):
+            for k in range(rounds[o]):
+                want += ins[o] + [hlib.se('FlushAndRestart')]
+        want.append(hlib.se('Terminate'))
+        if [e.variant for e in out] != [e.variant for e in want]:
+            raise Violation('Replay output %s, expected every round to re-feed the complete input: %s' %
+                            ([e.variant for e in out], [e.variant for e in want]), hlib._wit(ex), sx())
+        for a, b in zip(out, want):
+            if a.variant in ('Item', 'Timestamped') and a.fields[0].v != b.fields[0].v:
+                raise Violation('Replay re-feeds different or reordered elements', hlib._wit(ex), sx())
+            ta, tb = hlib.ts_of(a), hlib.ts_of(b)
+            if ta is not None:
+                check(ex, ta.v == tb.v, 'Replay altered a timestamp', sx)
+        # the state lock is taken (odd generation) from every FlushAndRestart until the new state is published
+        for el, g in zip(out, gens):
+            if el.variant == 'FlushAndRestart':
+                if ex.concretize(g) % 2 != 1:
+                    raise Violation('Replay did not lock the iteration state when the round ended', hlib._wit(ex), sx())
+        if len(handle.sets) != len(msgs):
+            raise Violation('%d state updates published for %d feedback messages' % (len(handle.sets), len(msgs)),
+                            hlib._wit(ex), sx())
+        for (st, g), (_, want_st) in zip(handle.sets, msgs):
+            check(ex, st.z() == want_st.z(), 'state published to the loop body is not the one received from the leader', sx)
+            if ex.concretize(g) % 2 != 1:
+                raise Violation('state published while the state lock is not held', hlib._wit(ex), sx())
+        if any(r > 1 for r in rounds):
+            hlib.cover(ex, 'replayed')
+        return sx()
+    return h
+
+
+_leader_tasks = TASKS
+
+
+def TASKS(tier):     # noqa: F811
+    ts = _leader_tasks(tier)
+    for outer, ml, mr in ([(1, 2, 3), (2, [2, 1], 2)] if tier == 'quick' else [(1, 3, 3), (2, [2, 2], 3)]):
+        ts.append(Task('replay_o%d_r%d' % (outer, mr), 'replay_harness', {'outer': outer, 'max_len': ml, 'max_rounds': mr},
+                       bounds='Replay::next with the real IterationStateHandler / IterationStateLock: %d outer iteration(s) x '
+                              '<=%s elements, each replayed 1..%d rounds (leader feedback Continue*/Finished, states '
+                              'symbolic)' % (outer, ml, mr), role='replay', opts={'covers': ['replayed']}, budget=300))
+    return ts
